@@ -60,7 +60,8 @@ pub struct Script {
     /// Last-Modified header on objects: true = a fixed time in the past, false = absent
     pub last_modified_header: bool,
     pub vcp: VcpSpec,
-    /// responses delivered with chunked transfer encoding / lower-case header names (bits 0 / 1)
+    /// responses delivered with chunked transfer encoding / lower-case header names (bits 0 / 1); listings pretty-printed
+    /// (bit 2) and without the optional elements, specials as hexadecimal character references (bit 3)
     #[serde(default)]
     pub delivery: u8,
     /// upload times have whole-second resolution: groups of this many consecutive chunks share one time
@@ -292,7 +293,7 @@ impl World for PollWorld {
                 objects.sort_by(|a, b| a.key.as_bytes().cmp(b.key.as_bytes()));
                 let total = objects.len();
                 objects.truncate(max_keys.unwrap_or(1000).min(1000));
-                Response::xml(list_document(req.bucket(), &prefix, &objects, objects.len() < total, false, true, max_keys))
+                Response::xml(crate::s3sim::list_document_styled(req.bucket(), &prefix, &objects, objects.len() < total, self.script.delivery & 4 != 0, self.script.delivery & 8 == 0, max_keys, if self.script.delivery & 8 != 0 { 2 } else { 0 }))
             }
         } else {
             // GET SITE/<dir>/<name>
@@ -628,7 +629,7 @@ pub fn script_strategy() -> impl Strategy<Value = Script> {
         3 => (0usize..=12).prop_map(Consumer::StopAfter),
         2 => (0usize..=12).prop_map(Consumer::DropAfter),
     ];
-    (volume, run, seq, entries, never_at, consumer, (any::<bool>(), prop_oneof![2 => Just(0u8), 1 => 1u8..4], prop_oneof![3 => Just(0u8), 1 => Just(2u8), 1 => Just(3u8), 1 => Just(5u8)]), prop_oneof![3 => Just(true), 1 => Just(false)], gen::vcp(prop_oneof![Just(0usize), 1usize..=20].boxed()).prop_flat_map(|v| {
+    (volume, run, seq, entries, never_at, consumer, (any::<bool>(), prop_oneof![2 => Just(0u8), 2 => 1u8..16], prop_oneof![3 => Just(0u8), 1 => Just(2u8), 1 => Just(3u8), 1 => Just(5u8)]), prop_oneof![3 => Just(true), 1 => Just(false)], gen::vcp(prop_oneof![Just(0usize), 1usize..=20].boxed()).prop_flat_map(|v| {
         let n = v.cuts.len();
         (Just(v), vec(gen::realistic_cut(), n))
     }))
@@ -661,6 +662,7 @@ pub fn classify(s: &Script) -> CaseInfo {
         .class(!s.last_modified_header, "no-last-modified-header")
         .class(s.run_length >= 100, "widely-populated-bucket")
         .class(s.tie_group >= 2, "tied-upload-times")
+        .class(s.delivery & 4 != 0, "pretty-printed-listings")
 }
 
 pub fn run(ctx: &Ctx, rep: &mut Report) {
